@@ -93,6 +93,8 @@ fn prog_code(p: &Value) -> Vec<u8> {
     let tail: Vec<u8> = match p["tail"].as_str().unwrap_or("ret1") {
         "ret1" => op::ret(RegId::ONE).to_bytes().to_vec(),
         "ret0" => op::ret(RegId::ZERO).to_bytes().to_vec(),
+        "ret2" => [op::movi(0x11, 2), op::ret(0x11)].into_iter().collect(),
+        "retmax" => [op::not(0x11, RegId::ZERO), op::ret(0x11)].into_iter().collect(),
         "rvrt" => op::rvrt(RegId::ONE).to_bytes().to_vec(),
         "retd" => op::retd(RegId::ZERO, RegId::ZERO).to_bytes().to_vec(),
         "spin" => op::ji(at).to_bytes().to_vec(),
@@ -153,7 +155,7 @@ impl CTx {
 
 #[derive(Clone)]
 enum WitD {
-    Sig { signer: String, over: Option<[u8; 32]> }, // over None = this transaction's id
+    Sig { signer: String, over: Option<[u8; 32]>, extra: i32 }, // over None = this transaction's id; extra != 0: bytes appended (>0) / cut (<0): no longer a signature
     Raw(Vec<u8>),
 }
 
@@ -204,12 +206,15 @@ fn sign_witnesses(ctx: &mut CTx, wits: &[WitD], chain: &ChainId) -> Bytes32 {
     ctx.witnesses = wits
         .iter()
         .map(|w| match w {
-            WitD::Sig { signer, over } => {
+            WitD::Sig { signer, over, extra } => {
                 let m = match over {
                     None => Message::from_bytes(*id),
                     Some(o) => Message::from_bytes(*o),
                 };
-                Witness::from(Signature::sign(&secret(signer), &m).as_ref().to_vec())
+                let mut b = Signature::sign(&secret(signer), &m).as_ref().to_vec();
+                if *extra > 0 { b.extend(std::iter::repeat(0x00).take(*extra as usize)); }
+                if *extra < 0 { b.truncate(b.len() - (-*extra) as usize); }
+                Witness::from(b)
             }
             WitD::Raw(b) => Witness::from(b.clone()),
         })
@@ -428,13 +433,18 @@ fn build_abstract(atx: &Value, rot: usize, w: &World) -> Built {
         .iter()
         .enumerate()
         .map(|(k, x)| match jstr(x, "signer").as_str() {
-            "none" => WitD::Raw(match (k + rot) % 4 {
-                0 => vec![],
-                1 => vec![0u8; 64],
-                2 => vec![0x5a; 63],
-                _ => vec![0x5a; 65],
-            }),
-            s => WitD::Sig { signer: s.to_string(), over: if jstr(x, "over") == "this" { None } else { Some(b32(0x07, k + rot)) } },
+            // "none": not a signature of anybody -- empty, zeros, junk, or a genuine signature of A or B over this
+            // id with a byte appended / removed
+            "none" => match (k + rot) % 7 {
+                0 => WitD::Raw(vec![]),
+                1 => WitD::Raw(vec![0u8; 64]),
+                2 => WitD::Raw(vec![0x5a; 63]),
+                3 => WitD::Raw(vec![0x5a; 65]),
+                4 => WitD::Sig { signer: "A".into(), over: None, extra: 1 },
+                5 => WitD::Sig { signer: "B".into(), over: None, extra: 8 },
+                _ => WitD::Sig { signer: "A".into(), over: None, extra: -1 },
+            },
+            s => WitD::Sig { signer: s.to_string(), over: if jstr(x, "over") == "this" { None } else { Some(b32(0x07, k + rot)) }, extra: 0 },
         })
         .collect();
     let outputs = vec![Output::coin(addr_of("C"), 10, w.base), Output::change(addr_of("C"), 0, w.base)];
@@ -860,7 +870,7 @@ struct GenIn {
 fn gen_desc(rng: &mut StdRng, good: bool) -> Value {
     let pre = *[0u64, 0, 1, 2, 3, 7, 30].choose(rng).unwrap();
     let lp = if rng.gen_bool(0.5) { 0 } else { *[1u64, 2, 3, 10, 100, 1000, 20_000].choose(rng).unwrap() };
-    let tail = if good { "ret1" } else { *["ret0", "rvrt", "retd", "bad", "spin", "ret1"].choose(rng).unwrap() };
+    let tail = if good { "ret1" } else { *["ret0", "ret2", "retmax", "rvrt", "retd", "bad", "spin", "ret1", "ret1"].choose(rng).unwrap() };
     json!({"pre": pre, "loop": lp, "tail": tail})
 }
 
@@ -942,7 +952,8 @@ fn record(o: &Opts) -> Res<()> {
         let mut wits: Vec<WitD> = (0..nwit)
             .map(|k| {
                 if good || rng.gen_bool(0.75) {
-                    WitD::Sig { signer: names[rng.gen_range(0..3)].to_string(), over: if good || rng.gen_bool(0.85) { None } else { Some(b32(0x09, k)) } }
+                    WitD::Sig { signer: names[rng.gen_range(0..3)].to_string(), over: if good || rng.gen_bool(0.85) { None } else { Some(b32(0x09, k)) },
+                                extra: if good || rng.gen_bool(0.8) { 0 } else { *[1, 2, 8, 64, -1, -32].choose(&mut rng).unwrap() } }
                 } else {
                     WitD::Raw(match rng.gen_range(0..4) {
                         0 => vec![],
@@ -964,11 +975,11 @@ fn record(o: &Opts) -> Res<()> {
             let want_signed = (part == "mutate" && j == 0) || rng.gen_bool(0.45);
             if want_signed && (part == "mutate" || !wits.is_empty() || rng.gen_bool(0.5)) {
                 if wits.is_empty() {
-                    wits.push(WitD::Sig { signer: names[rng.gen_range(0..3)].to_string(), over: None });
+                    wits.push(WitD::Sig { signer: names[rng.gen_range(0..3)].to_string(), over: None, extra: 0 });
                 }
                 let widx = if good || rng.gen_bool(0.9) { rng.gen_range(0..wits.len()) } else { wits.len() + rng.gen_range(0..2) };
                 let owner = match (wits.get(widx), good || rng.gen_bool(0.8)) {
-                    (Some(WitD::Sig { signer, over: None }), true) => addr_of(signer),
+                    (Some(WitD::Sig { signer, over: None, .. }), true) => addr_of(signer),
                     _ => addr_of(names[rng.gen_range(0..3)]),
                 };
                 gens.push(GenIn { input: mk_signed(j, carrier, owner, widx as u16, w.base),
@@ -1034,7 +1045,8 @@ fn record(o: &Opts) -> Res<()> {
         let tx = ctx.to_script();
         let pred_idx: Vec<usize> = tx.inputs().iter().enumerate().filter(|(_, i)| i.predicate_gas_used().is_some()).map(|(k, _)| k).collect();
         let wj: Vec<Value> = wits.iter().map(|x| match x {
-            WitD::Sig { signer, over } => json!({"signer": signer, "over": hx(over.map(Bytes32::new).unwrap_or(id))}),
+            WitD::Sig { signer, over, extra: 0 } => json!({"signer": signer, "over": hx(over.map(Bytes32::new).unwrap_or(id))}),
+            WitD::Sig { signer, extra, .. } => json!({"signer": "none", "over": "", "len": 64 + extra, "base": signer}),
             WitD::Raw(b) => json!({"signer": "none", "over": "", "len": b.len()}),
         }).collect();
         out.ev(json!({"ev": "Seg", "n": n, "part": part}));
